@@ -1,7 +1,7 @@
 #!/bin/bash
 # evaluate the eighth round of delivered seeded changes under /tmp/seed8/*.out (2 per property) -> /verif/seeded/<id>-<n+15>
 cd /verif
-ls /tmp/seed8/*.out/change*.diff 2>/dev/null | while read d; do
+ls /tmp/seed8/*.out/change*.diff 2>/dev/null | grep -E "${ONLY:-.}" | while read d; do
   dir=$(dirname $d); id=$(basename $dir .out); n=$(basename $d .diff | sed 's/change//')
   demo=$dir/demo${n}_test.go
   [ -f "$demo" ] || continue
